@@ -94,6 +94,103 @@ def c17_run(c):
     return tie
 
 
+C20_CONFIGS = [
+    # name, cargo feature arguments
+    ("std+chain-error, all optional integrations (default)", ["--features", "full"]),
+    ("no_std+alloc, all optional integrations", ["--no-default-features", "--features", "bitvec-f,bytes-f,garray-f"]),
+    ("no_std+chain-error, all optional integrations", ["--no-default-features", "--features", "chain,bitvec-f,bytes-f,garray-f"]),
+    ("no_std+alloc, optional integrations off", ["--no-default-features"]),
+]
+C20_CONFIGS_THOROUGH = [
+    ("std, only bit-vec", ["--no-default-features", "--features", "codec-std,chain,bitvec-f"]),
+    ("std, only bytes", ["--no-default-features", "--features", "codec-std,chain,bytes-f"]),
+    ("std, only generic-array", ["--no-default-features", "--features", "codec-std,chain,garray-f"]),
+    ("std without optional integrations", ["--no-default-features", "--features", "codec-std,chain"]),
+]
+
+
+def c20_run(c):
+    """Build the harness against the crate in each feature configuration, run the same
+    deterministic corpus in each, compare every configuration with the same model answers and the
+    configurations with each other."""
+    import hashlib
+    from concurrent.futures import ThreadPoolExecutor
+    tie = empty_tie()
+    cfgs = C20_CONFIGS + (C20_CONFIGS_THOROUGH if c["thorough"] else [])
+    hdir = os.path.dirname(os.path.dirname(c["exe"])) if False else None
+    # harness source directory: the one the main build used
+    src = os.path.join(c["build"], "alt-" + hashlib.sha1(c["repo"].encode()).hexdigest()[:8], "harness") if c["repo"] != "/repo" else os.path.join(c["verif"], "harness")
+    streams = "enc,rt,mut,rand,exh,decall,count,skip"
+
+    def build(i):
+        name, feats = cfgs[i]
+        tdir = os.path.join(c["build"], ("alt-" if c["repo"] != "/repo" else "") + "cargo-c20-%d" % i)
+        r = subprocess.run(["cargo", "build", "--release", "--offline"] + feats, cwd=src, stdout=subprocess.PIPE, stderr=subprocess.STDOUT,
+                           text=True, env=dict(os.environ, CARGO_NET_OFFLINE="true", CARGO_TARGET_DIR=tdir), timeout=3000)
+        if r.returncode != 0:
+            return (i, None, r.stdout[-1500:])
+        out = os.path.join(c["outdir"], "cfg-%d" % i)
+        r2 = subprocess.run([os.path.join(tdir, "release", "scale-harness"), "--streams", streams, "--seed", str(c["seed"]), "--out", out,
+                             "--tier", "thorough" if c["thorough"] else "quick"], stdout=subprocess.PIPE, stderr=subprocess.STDOUT, text=True, timeout=3000)
+        if r2.returncode != 0:
+            return (i, None, "harness run failed: " + r2.stdout[-800:])
+        return (i, out, "")
+
+    with ThreadPoolExecutor(max_workers=4) as ex:
+        results = list(ex.map(build, range(len(cfgs))))
+    answers = {}   # request -> {cfg index: answer}
+    digests = {}
+    for i, out, err in results:
+        if out is None:
+            return {"crashed": "configuration %r does not build or run: %s" % (cfgs[i][0], err)}
+        h = hashlib.sha256()
+        with open(os.path.join(out, "req.txt")) as fr, open(os.path.join(out, "rust.txt")) as fa:
+            for q, a in zip(fr, fa):
+                q, a = q.rstrip("\n"), a.rstrip("\n")
+                answers.setdefault(q, {})[i] = a
+                h.update(q.encode()); h.update(b"|"); h.update(a.encode()); h.update(b"\n")
+                tie["lines"] += 1
+        digests[cfgs[i][0]] = h.hexdigest()[:16]
+        with open(os.path.join(out, "oracle.txt")) as f:
+            for l in f:
+                pp, _, what = l.rstrip("\n").partition("\t")
+                tie["oracle"].append({"property": "C20", "what": "[%s] %s: %s" % (cfgs[i][0], pp, what)})
+    reqs = list(answers.keys())
+    m = subprocess.run([c["model"]], input="\n".join(reqs) + "\n", stdout=subprocess.PIPE, text=True)
+    model = m.stdout.split("\n")
+    nontriv = 0
+    for q, ma in zip(reqs, model):
+        per = answers[q]
+        vals = set(per.values())
+        if ma != "err":
+            nontriv += 1
+        if len(vals) > 1:
+            # oracle (C20): configurations disagree with each other
+            tie["oracle"].append({"property": "C20", "what": "configurations disagree on `%s`: %s" % (q[:300], {cfgs[i][0]: a[:80] for i, a in per.items()})})
+        for i, a in per.items():
+            if ma == "bad-op":
+                tie["bad_ops"].append({"line": 0, "request": q[:300]})
+                break
+            if a != ma:
+                if len(tie["disagreements"]) < 200:
+                    tie["disagreements"].append({"line": 0, "stream": "c20:" + cfgs[i][0], "request": q, "impl": a, "model": ma})
+                break
+        if len(tie["samples"]) < 8 and hash(q) % 5000 == 0:
+            tie["samples"].append({"request": q[:200], "answers_per_configuration": {cfgs[i][0]: a[:80] for i, a in per.items()}, "model": ma[:80]})
+    tie["nontrivial"] = nontriv
+    tie["stats"] = {"configurations": len(cfgs), "distinct_requests": len(reqs)}
+    tie["stats"].update({"digest:" + k: v for k, v in digests.items()})
+    # informational: cfg(feature) sites in the crate's sources
+    try:
+        g = subprocess.run("grep -rn 'feature *= *\"' %s/src %s/derive/src | wc -l" % (c["repo"], c["repo"]), shell=True, stdout=subprocess.PIPE, text=True)
+        tie["stats"]["cfg_feature_sites_in_sources"] = int(g.stdout.strip() or 0)
+    except Exception:
+        pass
+    if not tie["samples"]:
+        tie["samples"].append({"request": reqs[0][:200], "model": model[0][:80]})
+    return tie
+
+
 PROPS = {
     "C04": {
         "streams": ["compact"],
@@ -244,5 +341,15 @@ PROPS = {
         "level_note": "Partial by nature: that rustc expands the macro, evaluates the generated const block and reports its panic as a compile error is the compiler's behaviour, observed (per program, by file attribution of JSON diagnostics), not proved. Bound generation (trait_bounds.rs) enters only through 'valid twins compile'. Field types are u32 throughout (C05 covers type variety).",
         "trusted_base": COMMON_TB + ["rustc / cargo check JSON diagnostics; the program generator (definition -> source + surface descriptor)"],
         "assumptions": ["diagnostics carry the file of the offending program somewhere in their expansion span chain"],
+    },
+    "C20": {
+        "streams": [],
+        "custom": c20_run,
+        "disagreement_is_violation": True,
+        "rule": "the harness is built against the crate in 4 feature configurations (8 thorough): std+chain-error with all optional integrations (default); no_std+alloc with all; no_std+chain-error with all; no_std+alloc with bit-vec/bytes/generic-array off (derive and max-encoded-len stay on: the harness's own types need them); thorough adds std with each optional integration alone and with none. The same deterministic corpus (streams enc, rt, mut, rand, exh, decall, count, skip over every catalogue type available in that configuration; seed in the evidence) runs in each build; every configuration's answers are compared with the SAME model answers and, request by request, with each other; a digest per configuration is recorded. non-trivial = distinct request whose model answer is not `err`",
+        "level_text": "Decided by the correspondence: identical bytes, accept/reject decisions and values in every feature configuration, each equal to the model. Proved in Lean (what a configuration can legitimately touch): the no_std Output instance (Vec::extend_from_slice) and the std one (io::Write::write_all over a writer accepting arbitrary short writes) are both appending sinks and therefore observe the same byte string however the encoder splits its output; the model's failure value carries no information, so no modelled decision can depend on an error's description (chain-error).",
+        "level_note": "Partial by nature: a theorem cannot see a cfg-gated code path the model does not have; only the per-configuration runs can. derive and max-encoded-len are on in every configuration because the harness's own catalogue types derive them; the optional integrations are toggled. Error descriptions are not compared (only ok/err).",
+        "trusted_base": COMMON_TB + ["cargo feature resolution"],
+        "assumptions": ["the same seed produces the same corpus in every configuration (checked: requests common to two configurations are compared pairwise)"],
     },
 }
